@@ -423,6 +423,13 @@ def op_addresses(op):
     return [(c[0], c[1], c[2], tuple(op[2])) for c in op[1]]
 
 
+def akey(a):
+    """identity of an address: level, column, row and the dimension values; the dimensions are handed over as a dict,
+    which is the same value whatever order its keys were inserted in"""
+    a = tuple(a)
+    return (a[0], a[1], a[2], tuple(sorted(tuple(kv) for kv in a[3])))
+
+
 def spec_outputs(pay, ops, observed=None):
     m, outs = {}, []
     for i, op in enumerate(ops):
@@ -430,7 +437,7 @@ def spec_outputs(pay, ops, observed=None):
         if k == 'store_fault':
             # a store that fails half way either took place or did not (decided by what the address returns right
             # afterwards); anything else - and any later effect on another address - is a failure
-            a, pid = tuple(op[1]), op[2]
+            a, pid = akey(op[1]), op[2]
             got = observed[i] if observed is not None else ['nofault']
             old = m.get(a)
             if got == ['nofault']:
@@ -445,22 +452,22 @@ def spec_outputs(pay, ops, observed=None):
                 outs.append(['fault', 'old-or-new-content-expected'])
             continue
         if k == 'store':
-            m[tuple(op[1])] = op[2]
+            m[akey(op[1])] = op[2]
             outs.append(['done'])
         elif k == 'store_many':
             for a, (_, pid) in zip(op_addresses(op), op[1]):
-                m[a] = pid
+                m[akey(a)] = pid
             outs.append(['done'])
         elif k == 'load':
-            pid = m.get(tuple(op[1]))
+            pid = m.get(akey(op[1]))
             outs.append(['load', pid is not None, None if pid is None else list(pay.pixels[pid])])
         elif k == 'load_many':
-            r = [m.get(a) for a in op_addresses(op)]
+            r = [m.get(akey(a)) for a in op_addresses(op)]
             outs.append(['load_many', all(p is not None for p in r), [None if p is None else list(pay.pixels[p]) for p in r]])
         elif k == 'cached':
-            outs.append(['cached', tuple(op[1]) in m])
+            outs.append(['cached', akey(op[1]) in m])
         elif k == 'remove':
-            m.pop(tuple(op[1]), None)
+            m.pop(akey(op[1]), None)
             outs.append(['done'])
         else:
             outs.append(['done'])          # reopen, grow
@@ -1050,6 +1057,32 @@ def dimension_value_probes():
     return out
 
 
+DIM_ORDERS = [((('time', 't1'), ('elevation', 'e1')), (('elevation', 'e1'), ('time', 't1')),
+               (('time', 'e1'), ('elevation', 't1'))),
+              ((('zone', 'a'), ('dim_b', '1'), ('time', 'b'), ('dim_a', '2'), ('elevation', 'c')),
+               (('dim_a', '2'), ('elevation', 'c'), ('dim_b', '1'), ('time', 'b'), ('zone', 'a')),
+               (('zone', 'c'), ('dim_b', '1'), ('time', 'b'), ('dim_a', '2'), ('elevation', 'a')))]
+
+
+def dimension_order_probes():
+    """the dimensions argument is a dict: the same values handed over in dicts built in different key order (WMS
+    request-parameter order, seeder configuration, tile service) are the same address; the same keys with swapped
+    values are another one"""
+    out = []
+    for lay in ('tc', 'mp', 'tms', 'reverse_tms'):
+        for link in ('none', 'hardlink'):
+            ops = []
+            for n, (d1, d2, other) in enumerate(DIM_ORDERS):
+                a, b, c = (3, 4, 2, d1), (3, 4, 2, d2), (3, 4, 2, other)
+                ops += [('load', b), ('store', a, 6), ('load', b), ('cached', b), ('load', c), ('store', b, 7), ('load', a),
+                        ('load_many', [(3, 4, 2)], d1), ('store', c, 8), ('load', a), ('load', b), ('remove', b), ('load', a),
+                        ('cached', a), ('load', c), ('store_many', [((3, 4, 2), 9), ((5, 4, 2), 10)], d2),
+                        ('load_many', [(5, 4, 2), (3, 4, 2)], d1), ('remove', a), ('cached', b), ('load', (5, 4, 2, d1)),
+                        ('remove', c), ('remove', (5, 4, 2, d2)), ('load', (5, 4, 2, d1))]
+            out.append(({'kind': 'file', 'layout': lay, 'link': link}, ops, 'probe:dimension-key-order'))
+    return out
+
+
 def bulk_store_dup_probes():
     """a bulk store is a sequence of stores: the last tile of the list that names an address decides"""
     out = []
@@ -1103,7 +1136,24 @@ def path_cases(ctx, terms, descr):
     rng = ctx.rng
     n = ctx.n(420, 6000)
     caches = {lay: FileCache('/CD', 'png', directory_layout=lay) for lay in LAYOUTS}
-    for i in range(n):
+    # deterministic: the same dimension values in dicts of different key order (one path), swapped values (another)
+    fixed = []
+    for lay in LAYOUTS:
+        if lay in NO_DIM_LAYOUTS:
+            continue
+        for group in DIM_ORDERS:
+            for dims in group:
+                fixed.append((lay, 3, 4, 2, dims))
+    for i in range(-len(fixed), n):
+        if i < 0:
+            lay, x, y, z, dims = fixed[i]
+            p = caches[lay].tile_location(Tile((x, y, z)), dimensions=dims_arg(dims))
+            rel = p[len('/CD/'):] if p.startswith('/CD/') else '<outside>' + p
+            ctx.case(('path', lay, x, y, z, dims), True)
+            ctx.count('path/' + lay)
+            terms.append('(%s, %s, %s)' % (slit(lay), addr_lit((x, y, z, dims)), codes(rel)))
+            descr.append({'layout': lay, 'coord': [x, y, z], 'dimensions': dims, 'tile_location': rel})
+            continue
         lay = LAYOUTS[i % len(LAYOUTS)]
         mode = rng.random()
         if mode < 0.5:
@@ -1491,6 +1541,7 @@ def run(ctx):
     todo += colour_probes(pay)
     todo += [c for c in bulk_store_dup_probes() if not ctx.quick or c[0].get('link', 'none') == 'none']
     todo += [c for c in dimension_value_probes() if not ctx.quick or c[0]['link'] == 'none']
+    todo += [c for c in dimension_order_probes() if not ctx.quick or c[0]['link'] == 'none']
 
     cfgs = all_configs()
     # 2. bounded exhaustive short histories over three colliding addresses (each from the empty state of the
